@@ -142,7 +142,7 @@ impl<'l, Data> EventLoop<'l, Data> {
 
 impl LoopSignal {
     pub closed spec fn ready_flag(&self) -> &AtomicBool { &self.signal.future_ready }
-//@ slice src/loop_logic.rs / impl EventLoop<'l, Data> / fn block_on :: stmts <<self.0.signal.future_ready.store(true, Ordering::Release);>>#1/2 .. <<self.0.notifier.notify().ok();>>#1/2 props=C11 name=EventLoop::block_on::EventLoopWaker::wake
+//@ slice src/loop_logic.rs / impl EventLoop<'l, Data> / fn block_on :: stmts <<self.0.signal.future_ready.store(>>#1/2 .. <<self.0.notifier.notify().ok();>>#1/2 props=C11 name=EventLoop::block_on::EventLoopWaker::wake
 //@ rw R16 * <<self.0.notifier>> => <<slf.notifier>>
 //@ rw R19 * <<self.0.signal.future_ready.store(>> => <<flag_store(&slf.signal.future_ready, >>
 //@ sig
@@ -156,7 +156,7 @@ impl LoopSignal {
             // in progress -- or the next one -- returns)
             w_flag_stored(slf.ready_flag(), true), slf.note().w_notified(),
 //@ endslice
-//@ slice src/loop_logic.rs / impl EventLoop<'l, Data> / fn block_on :: stmts <<self.0.signal.future_ready.store(true, Ordering::Release);>>#2/2 .. <<self.0.notifier.notify().ok();>>#2/2 props=C11 name=EventLoop::block_on::EventLoopWaker::wake_by_ref
+//@ slice src/loop_logic.rs / impl EventLoop<'l, Data> / fn block_on :: stmts <<self.0.signal.future_ready.store(>>#2/2 .. <<self.0.notifier.notify().ok();>>#2/2 props=C11 name=EventLoop::block_on::EventLoopWaker::wake_by_ref
 //@ rw R16 * <<self.0.notifier>> => <<slf.notifier>>
 //@ rw R19 * <<self.0.signal.future_ready.store(>> => <<flag_store(&slf.signal.future_ready, >>
 //@ sig
